@@ -120,6 +120,11 @@ func (v *authorizer) Authorize() error {
 	// a block may only refer to the default symbols, its own table and the tables of earlier
 	// blocks: resolve each block against that prefix, so that a later block cannot give a
 	// meaning to a symbol index that was dangling in an earlier one
+	// from here on the world holds content of the token: the authorizer counts as
+	// evaluated (and its policies can no longer be serialized) even if the
+	// evaluation below ends in an error
+	v.dirty = true
+
 	authoritySymbols := v.biscuit.symbolsUpTo(0)
 	for _, fact := range *v.biscuit.authority.facts {
 		f, err := fromDatalogFact(authoritySymbols, fact)
@@ -140,7 +145,6 @@ func (v *authorizer) Authorize() error {
 	if err := v.world.Run(v.symbols); err != nil {
 		return err
 	}
-	v.dirty = true
 
 	var errs []error
 
@@ -280,10 +284,11 @@ func (v *authorizer) Authorize() error {
 }
 
 func (v *authorizer) Query(rule Rule) (FactSet, error) {
+	// a run that fails half-way has already added derived facts to the world
+	v.dirty = true
 	if err := v.world.Run(v.symbols); err != nil {
 		return nil, err
 	}
-	v.dirty = true
 
 	facts := v.world.QueryRule(rule.convert(v.symbols), v.symbols)
 
